@@ -16,6 +16,7 @@ ASSUMPTIONS = [
     'in existence at a call is below the callee\'s entry watermark, everything a callee allocates lies between its entry and exit watermark',
     'A-heap: tensor trains stored in trajectory lists are described by uninterpreted functions of their identity (vt/e1/heap.py); the '
     'bound axioms H_top/H_bot are consistent by construction (finite id sets) but not proved inside z3',
+    'L-cumsum-mono: cumulative sums of positive integers are strictly increasing (assumed in the qtt2tt contract; needs induction)',
     'L-prod-pos / L-prod-front / L-prod-split: a product of positive integers is positive; prod(l[a:b]) = l[a] * prod(l[a+1:b]); '
     'prod(l[0:n]) = prod(l[0:k]) * prod(l[k:n]) (assumed for the uninterpreted slice products; each needs induction over the slice)',
     'A-vacuity: where z3 cannot build a model of a quantified path condition the vacuity guard degrades to "no contradiction derivable '
